@@ -23,7 +23,10 @@ PROP = "C15"
 CLAUSES = {"AcceptIffSchema", "CleanDiagnostic", "NothingExecuted", "CheckCreatesNoOutput"}
 
 REPR = {
-    "name": {"valid": ["'t'"], "badgrammar": ["'a b'", "''", "'x/y'", "'n:m'", "'t\\u00e4sk'", "'t.1'"],
+    "name": {"valid": ["'t'"], "badgrammar": ["'a b'", "''", "'x/y'", "'n:m'", "'t\\u00e4sk'", "'t.1'",
+                            # code points that case-fold / normalise to ASCII letters (Kelvin sign, long s, dotted / dotless i),
+                            # full-width and superscript digits: not in the documented alphabet
+                            "'\\u212a'", "'ta\\u017fk'", "'\\u0130d'", "'d\\u0131'", "'\\uff41b'", "'x\\u00b2'", "'\\u0661'"],
              "wrongtype": ["5", "None", "['t']", "True"]},
     "run": {"str": ["'true'"], "wrongtype": ["5", "['true']", "None", "True"]},
     "par": {"bool": ["True", "False"], "wrongtype": ["1", "'yes'", "None", "0"]},
@@ -33,7 +36,8 @@ REPR = {
              "nonstringkey": ["{1: 'a'}", "{None: 1}", "{('a',): 1}"], "nonprimitive": ["{'k': [1]}", "{'k': None}", "{'k': {'a': 1}}"]},
     "deps": {"valid": ["['//:x', '//a:x2']", "['//a:x']", "['//a/:x2']"], "relative": ["[':x']", "[':x', '//a:x2']"],
              "notlist": ["'//:x'", "('//:x',)", "{'//:x'}"], "nonstr": ["[5]", "[None]", "['//:x', 7]"],
-             "malformed": ["['x']", "['//a:b:c']", "['//a b:x']", "['']", "['//a:']", "[':']", "['a:x']"],
+             "malformed": ["['x']", "['//a:b:c']", "['//a b:x']", "['']", "['//a:']", "[':']", "['a:x']", "['//a:\\u212a']", "['//\\u017f:x']",
+                       "[':\\u0131']"],
              "duplicate": ["['//:x', ':x']", "['//a:x2', '//a:x2']", "['//a:x2', '//a/:x2']"],
              "samename": ["['//a:x', '//b:x']", "['//:x', '//b:x']"]},
 }
